@@ -10,6 +10,10 @@ REGIMES = {
     # set_precision(0) with a 1/1024 s tick: segment bounds must be whole seconds (multiples of 1024 ticks), while
     # sliding-window parameters - which are not segments and are never rounded - may be any tick
     "P0": dict(scale=1 << 10, eps=1 << 10, prec=0),
+    # decimal grid: ticks of 0.1 s, i.e. non-dyadic floats (0.1, 0.2, 0.30000000000000004 never arises: every time is
+    # the double nearest k / 10). Only for operations that COMPARE bounds (no sums at ties): values read back are
+    # accepted within 1e-6 tick of a grid point.
+    "D1": dict(scale=10, eps=0, prec=None),
 }
 
 
@@ -101,6 +105,10 @@ class TB:
         except (TypeError, ValueError, OverflowError) as e:
             raise OffGrid(repr(value)) from e
         if f.denominator != 1:
+            if self.regime == "D1":
+                k = round(f)
+                if abs(f - k) <= Fraction(1, 10 ** 6):
+                    return int(k)
             raise OffGrid(repr(value))
         return int(f)
 
